@@ -173,6 +173,12 @@ class SexpRenderer:
             return f"(bytes {hexs(n[1].encode('utf-8'))})"
         if t == "op":
             o = OPS[n[1]]
+            if n[1] == "Substring":
+                return atoms(["substring"] + [self.e(a) for a in n[2]])
+            if n[1] == "Extract":
+                return atoms(["extract"] + [self.e(a) for a in n[2]])
+            if n[1] == "Suffix":
+                return atoms(["suffix"] + [self.e(a) for a in n[2]])
             return self.prim(o["teal"], [], n[2])
         if t == "nary":
             _, teal, _, _, _ = NARY[n[1]]
